@@ -12,7 +12,7 @@ theorem step_general {V : Variant} {v1 : Bool} {sS sR sS' sR' : List Bytes} {s s
     (hpre : pairPre false { j with lastPoll := none } ev outs = (j1, nb))
     (hmid : pairMid false nb ev outs j1 = jm)
     (hpost : pairPost false j.lastPoll nb ev outs jm = jm)
-    (hA' : All V s') (hRm : R V v1 sS' sR' s' jm) : R' V v1 sS' sR' s' (pairStep j ev outs) := by
+    (hA' : All V s') (hRm : R V v1 sS' sR' s' jm) : R' V v1 sS' sR' s' (pairStepOld j ev outs) := by
   rw [pairStep_eq (j := j) hR.1.err hne, hpre]
   simp only []
   rw [hmid, hpost]
@@ -67,7 +67,7 @@ theorem step_plain {V : Variant} {v1 : Bool} {sS sR : List Bytes} {s s' : State}
     {outs : List Out} (hR : R' V v1 sS sR s j) (hA' : All V s') (hv : view s' = view s)
     (hpre : ∀ j0 : PairJ, pairPre false j0 ev outs = (j0, .none))
     (hev : isPipeAdd ev = false) (hp : isPoll ev = false)
-    (ho : ∀ o ∈ outs, neutral o = true) : R' V v1 sS sR s' (pairStep j ev outs) := by
+    (ho : ∀ o ∈ outs, neutral o = true) : R' V v1 sS sR s' (pairStepOld j ev outs) := by
   have ht := tame_all (neutral_tame ho)
   exact step_general hR ht.1 (hpre _) (pairMid_neutral hR.1.racing hev ho)
     (pairPost_none hp ht.2 hR.1.racing) hA' (R_view hv hR.1)
@@ -89,7 +89,7 @@ theorem step_lost {V : Variant} {v1 : Bool} {sS sR : List Bytes} {s s1 : State} 
     (hev : isPipeAdd ev = false) (hp : isPoll ev = false)
     (hR1 : R V v1 sS sR s1 j1) (hP : PInv s1) (hg : getPipe s1 p = some pp) (hc : pp.closed = false)
     (hA' : All V (closePipe s1 p).1) :
-    R' V v1 sS sR (closePipe s1 p).1 (pairStep j ev [.rv 0, .pclosed p]) := by
+    R' V v1 sS sR (closePipe s1 p).1 (pairStepOld j ev [.rv 0, .pclosed p]) := by
   obtain ⟨_, hR2⟩ := closePipe_R hR1 hP .none hg hc
   have hcur : s1.cur = some p := by
     obtain ⟨hm, hid⟩ := getPipe_some hg; exact hid ▸ hP.single pp hm hc
